@@ -38,6 +38,8 @@ type declInfo struct {
 	canon    string
 	comments []string
 	isImport bool
+	paths    []string // import declarations: the paths they import
+	doc      []string // import declarations: the text of the doc comment
 }
 
 func stripParens(n ast.Node) {
@@ -86,6 +88,16 @@ func fileInfo(src string) (decls []declInfo, header []string, all []string, err 
 		var di declInfo
 		if gd, ok := d.(*ast.GenDecl); ok && gd.Tok == token.IMPORT {
 			di.isImport = true
+			for _, sp := range gd.Specs {
+				if is, ok := sp.(*ast.ImportSpec); ok && is.Path != nil {
+					di.paths = append(di.paths, is.Path.Value)
+				}
+			}
+			if gd.Doc != nil {
+				for _, c := range gd.Doc.List {
+					di.doc = append(di.doc, c.Text)
+				}
+			}
 		}
 		endLine := tf.Line(d.End())
 		var doc *ast.CommentGroup
@@ -174,6 +186,47 @@ func runCommentCheck(path string) {
 			nh = nhf
 			if strings.Join(oh, "\x00") != strings.Join(nh, "\x00") {
 				o.Problems = append(o.Problems, fmt.Sprintf("header/package comments changed: %q -> %q", oh, nh))
+			}
+			// import declarations all of whose imports are still imported: imports.Process may regroup them, so where their
+			// comments end up is not prescribed, but each is still in the file; and the comment in front of import "C" is
+			// the cgo preamble: it has to stay the doc comment of that declaration
+			stillImported := map[string]bool{}
+			for _, d := range nd {
+				for _, pth := range d.paths {
+					stillImported[pth] = true
+				}
+			}
+			inOut := map[string]int{}
+			for _, t := range nall {
+				inOut[t]++
+			}
+			for _, d := range od {
+				if !d.isImport || len(d.paths) == 0 {
+					continue
+				}
+				kept := true
+				for _, pth := range d.paths {
+					if !stillImported[pth] {
+						kept = false
+					}
+				}
+				if !kept {
+					continue
+				}
+				for _, t := range d.comments {
+					if inOut[t] == 0 {
+						o.Problems = append(o.Problems, fmt.Sprintf("comment %q of an import declaration whose imports are all kept (%s) is lost", t, strings.Join(d.paths, ", ")))
+					} else {
+						inOut[t]--
+					}
+				}
+				if len(d.paths) == 1 && d.paths[0] == `"C"` && len(d.doc) > 0 {
+					for _, dn := range nd {
+						if len(dn.paths) == 1 && dn.paths[0] == `"C"` && strings.Join(dn.doc, "\x00") != strings.Join(d.doc, "\x00") {
+							o.Problems = append(o.Problems, fmt.Sprintf("the cgo preamble in front of import \"C\" changed: %q -> %q", d.doc, dn.doc))
+						}
+					}
+				}
 			}
 			// align the non-import declarations by position
 			var a, b []declInfo
